@@ -3,3 +3,4 @@ import QecVerif.Props.C07.Planar
 import QecVerif.Props.C07.Toric
 import QecVerif.Props.C07.RotatedToric
 import QecVerif.Props.C07.RotatedPlanar
+import QecVerif.Props.C07.Color666
